@@ -90,6 +90,9 @@ func (e *Encoder) Bytes() ([]byte, error) {
 	if e.mode == modeInitial {
 		e.appendDefaultMetadata()
 	}
+	// Flush a pending run of drawing ops, so that the bytes of a path that is
+	// still open hold every op issued so far.
+	e.flushDrawOps()
 	return []byte(e.buf), nil
 }
 
